@@ -202,13 +202,15 @@ PROPS["C17"] = {
 
 PROPS["C11"]["claim"] = {
     "text": "Theorems (Properties/C11.v) on the Decoder model: for EVERY reader script (any chunking, zero-length reads, data with the terminal error) over EVERY byte stream the decoder returns exactly the grammar's value stream of the concatenated bytes, then io.EOF at a clean end and another error otherwise; "
-            "two scripts with the same bytes give the same values and terminal condition; a failing reader gives a prefix of the values then the reader's error; InputOffset never decreases. Buffered()/unread accounting, error stickiness and Parse's remainder are decided by correspondence (inline checks and encoding/json as oracle).",
+            "two scripts with the same bytes give the same values and terminal condition; a failing reader gives a prefix of the values then the reader's error; InputOffset never decreases and after every value lies between the end of that value and the start of the next (offset_range); Buffered followed by the undelivered data is exactly the input from InputOffset on (buffered_unconsumed, buffered_rest); "
+            "Parse's framing returns as remainder exactly the bytes after the first value and its trailing white space, an error when there is no value, and Unmarshal's acceptance is the grammar's (parse_remainder, parse_unmarshal). Error stickiness is decided by correspondence.",
     "note": "Trusted: Coq kernel; the hand-written Decoder model tied by correspondence on every run (model = implementation on streams up to 300 bytes under 8 delivery modes and every failure offset; longer streams are compared with encoding/json only); the regenerated scanner; extraction+driver; harness. Streams are bounded by 2^30 bytes in the theorems (int arithmetic of the buffer growth).",
 }
 PROPS["C17"]["claim"] = {
     "text": "Theorems (Properties/C17.v) on the tokenizer model: for EVERY valid document the tokenizer yields exactly the grammar-derived delimiters and scalars in order with Depth/Index/IsKey of every scalar and opening delimiter and no error; the token values concatenate to the compacted document; "
-            "for EVERY byte string it terminates within len+1 calls of Next with every Value the sub-slice ending Remaining bytes before the end; Next after an error returns false and changes nothing. Reset/pooled-stack reuse and Kind/String/Int/Uint/Float/Bool are decided by correspondence (reused vs fresh tokenizer, accessor values vs encoding/json's token stream).",
-    "note": "Trusted: Coq kernel; the hand-written tokenizer model tied by correspondence on every run (model = implementation on all strings of <= 3 class symbols and ~10^4 structured documents); the regenerated scanner; extraction+driver; harness. The pooled stack and Reset are not in the theorem (the model's Reset is construction of a fresh state; reuse is checked differentially).",
+            "for EVERY byte string it terminates within len+1 calls of Next with every Value the sub-slice ending Remaining bytes before the end; Next after an error returns false and changes nothing. Reset and pooled-stack reuse (Json/TokenReuseModel.v: the scope stack as a backing array with its stale slots, the pool under an arbitrary Get policy): a tokenizer Reset from ANY prior state, or built on ANY stack handed out by the pool, produces the token stream of a fresh tokenizer (next_refines, stale_irrelevant, reset_like_new, pooled_like_new, history_like_new), and only Reset clears the error (err_sticky_c, err_only_reset, reset_clears_err). "
+            "Kind/String/Int/Uint/Float/Bool are decided by correspondence (accessor values vs strconv/encoding/json on every scalar token).",
+    "note": "Trusted: Coq kernel; the hand-written tokenizer model tied by correspondence on every run (model = implementation on all strings of <= 3 class symbols and ~10^4 structured documents); the regenerated scanner; extraction+driver; harness. The concrete Reset/pool model is a hand transcription of token.go (field by field) tied to the code through the reused-vs-fresh correspondence cases only.",
 }
 PROPS["C04"]["claim"] = {
     "text": "Theorems (Properties/C04.v) on the thrift model: for both protocols, every supported struct type (ids in any order and spacing, gaps > 15, ranges > 64, required/optional/enum, bools in nested and pointer positions, lists, sets, maps, nested and pointer-to structs) and every value whose required fields are set, "
@@ -247,7 +249,7 @@ for _p in ("C01", "C02"):
     PROPS[_p]["trusted_base"] = PROPS[_p]["trusted_base"] + _C0102_TB
     PROPS[_p]["assumptions"] = PROPS[_p]["assumptions"] + ["strings and documents shorter than 2^62 bytes", "little-endian platform (formatInteger)", "flags given to parseStringUnquote are sound for the input (proved for what Parse computes)"]
 PROPS["C01"]["models"] = ["Generated/JsonStringGen.v json_encoder_encodeString (machine translation of encoder.encodeString) + json_intLELookup", "Generated/JsonParseGen.v json_escapeIndex/json_escapeByteRepr",
-                          "Json/StrExt.v", "Json/StrModel.v", "Json/NumModel.v", "Json/StrSpec.v, Json/NumSpec.v (transcriptions of encoding/json)"]
+                          "Json/StrExt.v", "Json/StrModel.v", "Json/NumModel.v", "Json/FloatModel.v (glue around strconv.AppendFloat, a Section variable)", "Json/StrSpec.v, Json/NumSpec.v, Json/FloatSpec.v (transcriptions of encoding/json)"]
 PROPS["C02"]["models"] = ["Generated/JsonStringGen.v json_decoder_parseStringUnquote (machine translation)", "Generated/JsonParseGen.v parseString/parseUnicode/parseUintHex/parseInt/parseUint/parseNumber/internalParseFlags/skipSpaces/hasNullPrefix",
                           "Json/StrExt.v", "Json/StrModel.v", "Json/NumModel.v", "Json/StrSpec.v, Json/NumSpec.v (transcriptions of encoding/json)"]
 PROPS["C01"]["claim"] = {
@@ -256,7 +258,7 @@ PROPS["C01"]["claim"] = {
             "< > & as u00XX escapes under EscapeHTML only, U+2028/2029 always escaped, each byte outside well-formed UTF-8 as the escape of U+FFFD, everything else (0x7f included) verbatim (c01_encode_string_std; c01_escape_string_std for AppendEscape/Escape); "
             "escapeIndex returns -1 exactly when no byte needs an escape (c01_escape_index) and in that case the early return quote-s-quote IS the standard escaping (c01_escape_fast_path); the standard escaping of any byte string is a JSON text of the RFC 8259 grammar (c01_escape_is_json), "
             "the standard unquoting reads it back as the string with ill-formed bytes replaced by U+FFFD (c01_unquote_escape, c01_sanitize_fixed), and so does the model of json.Unmarshal on the model of json.Marshal's output (c01_string_round_trip). "
-            "The hand model of formatInteger/appendInt/appendUint (json/int.go, the package's own table-driven code) writes the canonical decimal text of every int64 and uint64 (c01_append_int, c01_append_uint, c01_decimal_canonical) and every value of every Go integer type survives formatting + typed decoding (c01_int_round_trip). "
+            "The hand model of formatInteger/appendInt/appendUint (json/int.go, the package's own table-driven code) writes the canonical decimal text of every int64 and uint64 (c01_append_int, c01_append_uint, c01_decimal_canonical) and every value of every Go integer type survives formatting + typed decoding (c01_int_round_trip). Floats: the package's format selection ('f' or 'e' from the 1e-6 / 1e21 cut-offs at the value's bit size), NaN/Inf rejection and exponent clean-up around strconv.AppendFloat equal encoding/json's floatEncoder for EVERY float description, bit size, destination buffer and EVERY AppendFloat function whose 'e' text has at least four bytes (c01_float_glue_equal; the condition is exact: c01_clean_exp_prefix_iff, c01_float_glue_unrestricted_refuted). "
             "Everything else of the statement (type shapes, tags, embedding, maps, Marshalers, floats, indent) is decided by correspondence with encoding/json on every run on a reflect-generated type universe.",
     "note": "Partial. Trusted: Coq kernel; translator; hand models of unicode/utf8, unicode/utf16 (StrExt.v) and of formatInteger (NumModel.v) tied to the real code/stdlib by ~63k c01s cases per run (impl = oracle = model = spec); std_escape is a transcription of encoding/json go1.23.5 checked against it on every run; extraction+driver; harness. Three recorded findings (F28, F30, F12b) are subtracted by type-shape class.",
 }
